@@ -145,7 +145,7 @@ def c02(tier, seed):
 def c03(tier, seed):
     res = common.Result()
     rp = run_engine(build("dbg"), "prune", 1000000, seed, {"stage": "product"}, build_name="dbg")
-    product = {k: rp.extra.get(k) for k in ("product_size", "product_operations", "product_positions")}
+    product = {k: rp.extra.get(k) for k in ("product_size", "product_operations", "product_positions", "live_store_programs")}
     res.absorb(rp)
     if tier == "quick":
         res.absorb(run_engine(build("dbg"), "prune", n(60000), seed, {}, build_name="dbg"))
@@ -155,7 +155,7 @@ def c03(tier, seed):
     triage(res)
     res.extra.update(product)
     return finish("C03", tier, seed, "exploration", res,
-                  "stage product (enumerated completely on every run): 47 operations that can end a run with a runtime error or that have an effect other than their value (division and remainder by zero written 0, 0.0, 00.00, computed, through a variable; failing indexes; every operator class, condition, method, index, slice bound and built-in applied to an operand whose type is only known at run time and does not fit; pop/push/reverse/indexed assignment, assignment of a captured variable directly, two calls down and behind a flag, printing, process-command mutation inside a callee) x 16 positions whose value is never used (unused declaration, overwritten declaration/assignment, assignment never read again, array element, argument of a pure call or built-in, operand, function body, function called only from a dead store, loop body, if arm, nested block, branch merge, before a return, short-circuited away); each program is run with and without the plan and must print the same values and end the same way. Stage random: dead-biased generated programs (dead stores, unused variables, code after return/comot/next, functions called only from dead code, callees that read or conditionally write captured variables, recursion, failing operations) executed with the optimisation plan and without it on the same AST and facts; printed values and ending compared; in the unpruned run every executed statement id (hook) must be marked reachable by analysis::reachability. Non-trivial = the plan is non-empty, at least one statement was actually skipped at run time and the program printed something; distinct = hash of the source text",
+                  "stage product (enumerated completely on every run): 47 operations that can end a run with a runtime error or that have an effect other than their value (division and remainder by zero written 0, 0.0, 00.00, computed, through a variable; failing indexes; every operator class, condition, method, index, slice bound and built-in applied to an operand whose type is only known at run time and does not fit; pop/push/reverse/indexed assignment, assignment of a captured variable directly, two calls down and behind a flag, printing, process-command mutation inside a callee) x 19 positions whose value is never used (write-only variable assigned once, twice, in a loop; unused declaration, overwritten declaration/assignment, assignment never read again, array element, argument of a pure call or built-in, operand, function body, function called only from a dead store, loop body, if arm, nested block, branch merge, before a return, short-circuited away); each program is run with and without the plan and must print the same values and end the same way; plus 144 programs whose store IS read, but only in a later basic block (after an if / if-else / loop, on the next iteration, in a function, through a callee, out of nested blocks), with 0 to 300 other locals declared in front of it (the analyses' per-function bit sets have 64-bit words). Stage random: dead-biased generated programs (dead stores, unused variables, code after return/comot/next, functions called only from dead code, callees that read or conditionally write captured variables, recursion, failing operations) executed with the optimisation plan and without it on the same AST and facts; printed values and ending compared; in the unpruned run every executed statement id (hook) must be marked reachable by analysis::reachability. Non-trivial = the plan is non-empty, at least one statement was actually skipped at run time and the program printed something; distinct = hash of the source text",
                   ["same interpreter twice; the model is only used to discard non-terminating programs",
                    "runs ending in the interpreter's Stack overflow error are not compared (as the property says)"],
                   min_nontrivial=50)
